@@ -341,6 +341,22 @@ func c08Sequence(x *runCtx, r *rand.Rand, backend string, k lab.Kind, reuse bool
 	if seqNo%8 == 7 { // these run on the SQLite backend (seqNo%4 == 3)
 		g.script = c08CrossScripts(seqNo / 8)
 	}
+	if seqNo%8 == 3 { // SQLite as well: the session's own token with its authenticator or id damaged, in every way, then intact
+		hello := func(g *c08Gen) rawReq {
+			return rawReq{Tok: "n", Typ: 60, Wf: true, NonceOf: -1, Signer: -1, EncS: -1, KexOk: true, IdxOk: true, Dev: 1}
+		}
+		g.script = []func(g *c08Gen) rawReq{hello}
+		for _, kind := range []string{"flipmac", "zeromac", "flipid", "truncated", "extended"} {
+			kind := kind
+			g.script = append(g.script, func(g *c08Gen) rawReq {
+				k := len(g.ss) - 1
+				q := g.base(k, 62)
+				q.Tok, q.Variant = "b", fmt.Sprintf("badtok:%s:%d", kind, k)
+				return q
+			})
+		}
+		g.script = append(g.script, func(g *c08Gen) rawReq { return g.base(len(g.ss)-1, 62) })
+	}
 	for step := 0; step < length; step++ {
 		var q rawReq
 		roll := r.IntN(100)
